@@ -265,6 +265,15 @@ class Fn:
         if self._pdom is None:
             reach = self.reachable
             exits = [b for b in reach if self.blocks[b]["t"]["k"] == "return"]
+            # ignore paths that cannot return (panics, aborts): only blocks that reach a return count
+            live = set(exits)
+            ch = True
+            while ch:
+                ch = False
+                for b in reach:
+                    if b not in live and any(x in live for x in self.succ(b)):
+                        live.add(b)
+                        ch = True
             EXIT = -1
             full = set(reach) | {EXIT}
             pd = {b: set(full) for b in reach}
@@ -274,7 +283,7 @@ class Fn:
             while changed:
                 changed = False
                 for b in order:
-                    ss = [s for s in self.succ(b) if s in reach]
+                    ss = [s for s in self.succ(b) if s in reach and s in live]
                     if self.blocks[b]["t"]["k"] == "return":
                         ss = ss + [EXIT]
                     if not ss:
